@@ -93,7 +93,8 @@ _named_ts = (
     (12, r"twelve|zwölf"),
 )
 _rule_named_ts = "|".join(r"(?P<t_{}>{})".format(n, expr) for n, expr in _named_ts)
-_rule_named_ts = r"({})\s*".format(_rule_named_ts)
+# a named hour starts at a word boundary ("5ten" is the 5th, not 5 + ten o'clock)
+_rule_named_ts = r"\b({})\s*".format(_rule_named_ts)
 
 
 @rule(_rule_named_ts + r"((uhr|h|o\'?clock)\b)?")
@@ -183,7 +184,7 @@ def ruleMonthOrdinal(ts: datetime, m: RegexMatch) -> Time:
     return Time(month=int(m.match.group("month")))
 
 
-@rule(r"(?<!\d|\.)(?P<day>(?&_day))\s*(?:st|nd|rd|th|s?ten|ter)")
+@rule(r"(?<!\d|\.)(?P<day>(?&_day))\s*(?:s?ten|st|nd|rd|th|ter)")
 # a "[0-31]" followed by a th/st
 def ruleDOM2(ts: datetime, m: RegexMatch) -> Time:
     return Time(day=int(m.match.group("day")))
